@@ -345,6 +345,7 @@ def explore_many(modname, hs, seed=0, workers=None, chunk_s=6.0, n_witness=3, wa
                 agg['n_cex'] = agg.get('n_cex', 0) + sum(1 for r in res['records'] if r.get('cex'))
                 if agg['n_cex'] >= 12:
                     agg['stopped'] = True     # fail fast: enough counterexample candidates to replay
+                    agg['stopped_on_cex'] = True
                 if agg['stopped']:
                     agg['unexplored_prefixes'] += len(res['leftovers'])
                 else:
